@@ -246,13 +246,14 @@ func (e *kvElection) handleHeartbeatFailure(err error) {
 }
 
 // handleRunCancelled ends the term when the refreshes end because the run's
-// context is done. After Stop the election is STOPPED and demote leaves it
+// context is done (ctx, the loop's context, is derived from it). After Stop the election is STOPPED and demote leaves it
 // alone (Stop runs OnDemote itself). Otherwise the context given to Start was
 // cancelled by its caller: nothing refreshes the record any more, so the
 // instance must not keep reporting leadership.
 func (e *kvElection) handleRunCancelled(ctx context.Context) {
-	if e.electionContext() != ctx {
-		// a later Start has installed its own context
+	if run := e.electionContext(); run == nil || run.Err() == nil {
+		// Only the term is over (the loop's context is the term's), or a
+		// later Start has installed a fresh context: nothing to end here.
 		return
 	}
 
